@@ -1,5 +1,5 @@
 (* C04 — Combinational settling is complete and independent of construction order.
-   Statements only; proofs in Proofs/C04/{SortLemmas,Settle,Refute}.v.
+   Statements only; proofs in Proofs/C04/{SortLemmas,Settle,Refute,Chain,Main}.v.
    Sorter model: Model/Sort.v (step-for-step Simulator.topologicalSort / findFirstDependentPosition; tied to the
    real Simulator.propagatables element for element on every run).  Evaluation: Model/SimKernel.v propagateAll. *)
 From V Require Import Base.PyInt Gen.WireOps Model.SimKernel Model.Sort Spec.C04.
@@ -89,13 +89,25 @@ Theorem C04_selfloop_not_settled_refuted : exists (d : design unit) (vs : list Z
   single_driver (combs d) /\ ~ settled d (propagateAll d vs).
 Proof. exact selfloop_not_settled_refuted_thm. Qed.
 
-(* #14: "acyclic netlists are sorted" is FALSE under a pass limit: with K passes allowed, the chain of K+1 buffers
-   instantiated sink-first is acyclic (ranked), yet refused; K+1 passes sort it.  By computation for K = 1..32. *)
-Theorem C04_limit_refuted : forall K, 1 <= K <= 32 ->
+(* #14: "acyclic netlists are sorted" is FALSE under any pass limit: for EVERY K, the chain of K+1 buffers instantiated
+   sink-first is acyclic (ranked), yet refused when K passes are allowed; K+1 passes sort it. *)
+Theorem C04_limit_refuted : forall K,
   let succ := chain_succ (S K) in let l := rev_chain (S K) in
   NoDup l /\ closed succ l /\ ranking succ l (fun x => x) /\
   sort_fuel succ K l = None /\ sort_fuel succ (S K) l = Some (seq 0 (S K)).
 Proof. exact limit_refuted_thm. Qed.
+
+(* in particular at the code's constant: 1001 leaves, limit 1000 *)
+Theorem C04_limit_1000_refuted :
+  let n := S py4hw_loop_limit in
+  ranking (chain_succ n) (rev_chain n) (fun x => x) /\ sort_fuel (chain_succ n) py4hw_loop_limit (rev_chain n) = None.
+Proof. exact limit_1000_refuted_thm. Qed.
+
+(* the number of passes the sorter needs on n leaves instantiated sink-first is exactly n (so no constant limit works;
+   the conjectured bound "n passes always suffice" is tight if true) *)
+Theorem C04_pass_count_chain : forall n K, 1 <= n ->
+  sort_fuel (chain_succ n) K (rev_chain n) = if K <? n then None else Some (seq 0 n).
+Proof. exact pass_count_chain_thm. Qed.
 
 (* ---------------------------------------------------------------- non-vacuity *)
 Example C04_sort_nonvacuous : sort_fuel ex_succ py4hw_loop_limit [0; 1; 2] = Some [1; 2; 0].
@@ -123,3 +135,5 @@ Print Assumptions C04_sorted_netlist_settles.
 Print Assumptions C04_selfloop_refuted.
 Print Assumptions C04_selfloop_not_settled_refuted.
 Print Assumptions C04_limit_refuted.
+Print Assumptions C04_limit_1000_refuted.
+Print Assumptions C04_pass_count_chain.
